@@ -42,6 +42,7 @@ c_B = z3.Const("ed_B", EPt)
 B_X = 15112221349535400772501151409588531511454012693041857206046113283949847762202
 B_Y = 46316835694926478169428394003475163141307993866256225615783033603165251855960
 AUTO_ENC_INJ = [True]
+sym.RESET_HOOKS.append(lambda: AUTO_ENC_INJ.__setitem__(0, True))
 f_xrec = z3.Function("ed_xrecover", _I, _I)
 f_aed = z3.Function("ed_ae_from", _I, _I, EPt)      # try-and-increment: first good point at or after y+plus
 
